@@ -385,7 +385,71 @@ func (x *c17) gmeConfig(cfg *pb.ApiConfig, desc string) {
 		x.nt["gme|"+desc] = true
 		th = s.Go("close", func() { gme.Close() })
 		s.WaitQuiescent()
+		x.gmeSharedDialOptions(s, cfg, desc)
 	})
+}
+
+// P6b: the caller's dial-option slice is neither written to nor aliased: two
+// GCPMultiEndpoints built from the same slice (with spare capacity) and
+// different configurations keep dialing each of their pools - also the ones
+// created later by UpdateMultiEndpoints - with their own configuration.
+func (x *c17) gmeSharedDialOptions(s *vsched.Sched, cfg *pb.ApiConfig, desc string) {
+	vgrpc.Reset()
+	user := make([]grpc.DialOption, 1, 12)
+	user[0] = grpc.WithAuthority("caller-option")
+	dial := func(ctx context.Context, target string, opts ...grpc.DialOption) (*vgrpc.ClientConn, error) {
+		cc := vgrpc.NewFake(target, opts)
+		cc.SetState(connectivity.Ready)
+		return cc, nil
+	}
+	mk := func(c *pb.ApiConfig, eps ...string) *GCPMultiEndpointOptions {
+		return &GCPMultiEndpointOptions{GRPCgcpConfig: c, Default: "d", DialFunc: dial,
+			MultiEndpoints: map[string]*multiendpoint.MultiEndpointOptions{"d": {Endpoints: eps}}}
+	}
+	other := proto.Clone(cfg).(*pb.ApiConfig)
+	if other.ChannelPool == nil {
+		other.ChannelPool = &pb.ChannelPoolConfig{}
+	}
+	other.ChannelPool.MaxSize += 7
+	var a, b *GCPMultiEndpoint
+	var errA, errB, errU error
+	th := s.Go("two-gmes", func() {
+		a, errA = NewGCPMultiEndpoint(mk(cfg, "a1"), user...)
+		b, errB = NewGCPMultiEndpoint(mk(other, "b1"), user...)
+		if errA == nil && errB == nil {
+			errU = a.UpdateMultiEndpoints(mk(cfg, "a1", "a2"))
+		}
+	})
+	s.WaitQuiescent()
+	if th.PanicVal != nil || errA != nil || errB != nil || errU != nil || !th.Done() {
+		x.report("C17.P6", "GCPMultiEndpoints sharing a dial-option slice fail", fmt.Sprintf("%s: panic=%v errs=%v %v %v", desc, th.PanicVal, errA, errB, errU))
+		return
+	}
+	for i, o := range user[:cap(user)] {
+		if i > 0 && o != nil {
+			x.report("C17.P6", "caller's dial-option slice written to", fmt.Sprintf("spare slot %d of the caller's slice was filled by NewGCPMultiEndpoint", i))
+			break
+		}
+	}
+	var first []grpc.DialOption
+	for _, cc := range vgrpc.Dialed {
+		if !strings.HasPrefix(cc.Target, "a") {
+			continue
+		}
+		if first == nil {
+			first = cc.Opts
+			continue
+		}
+		same := len(first) == len(cc.Opts)
+		for i := 0; same && i < len(first); i++ {
+			same = first[i] == cc.Opts[i]
+		}
+		if !same {
+			x.report("C17.P6", "a later pool is dialed with other options (pool configuration) than the first pool of the same GCPMultiEndpoint", fmt.Sprintf("pool %s of a GCPMultiEndpoint whose dial-option slice was also given to another GCPMultiEndpoint", cc.Target))
+		}
+	}
+	th = s.Go("close2", func() { a.Close(); b.Close() })
+	s.WaitQuiescent()
 }
 
 func checkC17(c *vsched.RunCtx) {
